@@ -8,7 +8,10 @@
    ports have no row or column, D63: rectangular S only with T16 / U16, D17: parameters are
    registered only after every argument check has passed).
    No proofs in this file.  The numeric part of a solve (LU / QR rank decisions, iteration,
-   p-value, UE14->E12 conversion) is an uninterpreted oracle.  Allocation failure is not modelled.
+   p-value, UE14->E12 conversion) is an uninterpreted oracle.  Allocation failure is modelled for
+   vnacal_new_solve only (an injected fault, `afault`): it is the one way in which a failing solve can
+   leave the object changed (the parameter write-back precedes the last allocation of the call).
+   D69: classify_standard answers TRL_NONE for a standard that leaves a cell of the 2x2 S matrix unset.
 
    Indices are 0-based except the port numbers of a port map, which are 1-based as in the API. *)
 Require Import List Arith Bool PeanoNat.
@@ -77,7 +80,7 @@ Record add_args := {
   a_map : option (list nat)               (* s_port_map, 1-based; None = NULL *)
 }.
 
-Inductive errno := EDOM | EINVAL.
+Inductive errno := EDOM | EINVAL | ENOMEM.
 Inductive outcome := Ok | Err (e : errno) | OutOfModel.
 (* OutOfModel: the C code would index an automatic array out of bounds, dereference NULL or trip
    an assert() on these arguments; the model makes no prediction and the harness never sends them. *)
@@ -297,6 +300,23 @@ Definition gen_equations (cf : config) (a : add_args) : list (nat * (nat * nat))
 Record meas := { ms_args : add_args; ms_s : smat }.
 Definition eqn := (nat * (nat * nat))%type.       (* measurement index, (row, column) *)
 
+(* the value part of an unknown / correlated parameter, which lives in the vnacal_t:
+   vpmr_frequencies (= length of vpmr_frequency_vector) and vpmr_gamma_vector (NULL until a solve has
+   stored a solution; abstractly: the standards that solution was computed from) *)
+Record pval := { pv_freqs : nat; pv_gamma : option (list meas) }.
+Definition pv_init : pval := {| pv_freqs := 0; pv_gamma := None |}.   (* vnacal_make_unknown/correlated_parameter *)
+Definition pvals := list (nat * pval).                                 (* by parameter slot; absent = pv_init *)
+Fixpoint pv_get (pv : pvals) (k : nat) : pval :=
+  match pv with
+  | [] => pv_init
+  | (k', v) :: r => if k' =? k then v else pv_get r k
+  end.
+Fixpoint pv_set (pv : pvals) (k : nat) (v : pval) : pvals :=
+  match pv with
+  | [] => [(k, v)]
+  | (k', v') :: r => if k' =? k then (k, v) :: r else (k', v') :: pv_set r k v
+  end.
+
 Record state := {
   st_cf : config;
   st_freqs : nat;                  (* vn_frequencies *)
@@ -309,14 +329,15 @@ Record state := {
   st_sys : list (list eqn);        (* vn_system_vector[k].vns_equation_list *)
   st_equations : nat;              (* vn_equations *)
   st_max : nat;                    (* vn_max_equations *)
-  st_cal : option (list meas)      (* vn_calibration: abstractly, the standards it was solved from *)
+  st_cal : option (list meas);     (* vn_calibration: abstractly, the standards it was solved from *)
+  st_pv : pvals                    (* solved values of the unknown parameters (stored in the vnacal_t) *)
 }.
 
 Definition init (cf : config) (freqs : nat) (fvalid : bool) : state :=
   {| st_cf := cf; st_freqs := freqs; st_fvalid := fvalid; st_merr := false;
      st_seen := [0]; st_unknown := 0; st_corr := 0;       (* vn_zero is looked up by vnacal_new_alloc *)
      st_meas := []; st_sys := repeat [] (systems (cf_ty cf) (cf_c cf));
-     st_equations := 0; st_max := 0; st_cal := None |}.
+     st_equations := 0; st_max := 0; st_cal := None; st_pv := [] |}.
 
 Definition sys_count (st : state) (k : nat) : nat := length (nth k (st_sys st) []).
 
@@ -339,7 +360,7 @@ Definition set_params (st : state) (x : list nat * nat * nat) : state :=
   {| st_cf := st_cf st; st_freqs := st_freqs st; st_fvalid := st_fvalid st; st_merr := st_merr st;
      st_seen := fst (fst x); st_unknown := snd (fst x); st_corr := snd x;
      st_meas := st_meas st; st_sys := st_sys st; st_equations := st_equations st; st_max := st_max st;
-     st_cal := st_cal st |}.
+     st_cal := st_cal st; st_pv := st_pv st |}.
 
 Definition add_std (st : state) (a : add_args) : state * outcome :=
   let cf := st_cf st in
@@ -360,7 +381,7 @@ Definition add_std (st : state) (a : add_args) : state * outcome :=
       ({| st_cf := cf; st_freqs := st_freqs st; st_fvalid := st_fvalid st; st_merr := st_merr st;
           st_seen := st_seen st1; st_unknown := st_unknown st1; st_corr := st_corr st1;
           st_meas := st_meas st ++ [{| ms_args := a; ms_s := s |}];
-          st_sys := sys; st_equations := total; st_max := mx; st_cal := st_cal st |}, Ok)
+          st_sys := sys; st_equations := total; st_max := mx; st_cal := st_cal st; st_pv := st_pv st |}, Ok)
   end.
 
 (* ------------------------------------------------------------------ vnacal_new_set_m_error (one sigma for all frequencies / reset) *)
@@ -368,7 +389,7 @@ Definition set_merr_field (st : state) (b : bool) : state :=
   {| st_cf := st_cf st; st_freqs := st_freqs st; st_fvalid := st_fvalid st; st_merr := b;
      st_seen := st_seen st; st_unknown := st_unknown st; st_corr := st_corr st;
      st_meas := st_meas st; st_sys := st_sys st; st_equations := st_equations st; st_max := st_max st;
-     st_cal := st_cal st |}.
+     st_cal := st_cal st; st_pv := st_pv st |}.
 
 Definition set_m_error (st : state) (on : bool) : state * outcome :=
   if negb on then (set_merr_field st false, Ok)
@@ -378,65 +399,54 @@ Definition set_m_error (st : state) (on : bool) : state * outcome :=
   else (set_merr_field st true, Ok).
 
 (* ------------------------------------------------------------------ solve: dispatch *)
-Inductive trl_class := TRL_T | TRL_R | TRL_L | TRL_NONE | TRL_FAULT.
+Inductive trl_class := TRL_T | TRL_R | TRL_L | TRL_NONE.
 
 Definition slot_is (x : option nat) (k : nat) : bool := match x with Some k' => k' =? k | None => false end.
 Definition slot_eq (x y : option nat) : bool :=
   match x, y with Some a, Some b => a =? b | None, None => true | _, _ => false end.
 Definition slot_unknown (kinds : list (nat * pkind)) (x : option nat) : bool :=
   match x with Some k => match kind_of kinds k with PUnknown => true | _ => false end | None => false end.
+Definition is_some (x : option nat) : bool := match x with Some _ => true | None => false end.
 
-(* classify_standard on the 2x2 vnm_s_matrix s[0..3]; a NULL cell that the C code dereferences is a fault *)
+(* classify_standard on the 2x2 vnm_s_matrix s[0..3]; since D69 a standard with an unset (NULL) cell
+   is TRL_NONE before any cell is read *)
 Definition classify (kinds : list (nat * pkind)) (s : smat) : trl_class :=
   let s0 := sget s 0 0 in let s1 := sget s 0 1 in let s2 := sget s 1 0 in let s3 := sget s 1 1 in
-  match s1 with
-  | None => TRL_FAULT
-  | Some _ =>
-    if slot_is s1 1 then
-      match s2 with
-      | None => TRL_FAULT
-      | Some _ => if slot_is s2 1 && slot_is s0 0 && slot_is s3 0 then TRL_T else TRL_NONE
-      end
-    else if slot_is s1 0 then
-      match s0 with
-      | None => TRL_FAULT
-      | Some _ => if slot_unknown kinds s0 && slot_eq s3 s0 && slot_is s2 0 then TRL_R else TRL_NONE
-      end
-    else if slot_is s0 0 && slot_is s3 0 && slot_unknown kinds s1 && slot_eq s2 s1 then TRL_L else TRL_NONE
-  end.
+  if negb (is_some s0 && is_some s1 && is_some s2 && is_some s3) then TRL_NONE
+  else if slot_is s1 1 then
+    (if slot_is s2 1 && slot_is s0 0 && slot_is s3 0 then TRL_T else TRL_NONE)
+  else if slot_is s1 0 then
+    (if slot_unknown kinds s0 && slot_eq s3 s0 && slot_is s2 0 then TRL_R else TRL_NONE)
+  else if slot_is s0 0 && slot_is s3 0 && slot_unknown kinds s1 && slot_eq s2 s1 then TRL_L else TRL_NONE.
 
 (* the loop of _vnacal_new_solve_is_trl over the measured standards: acc = (t, r, l seen) *)
-Fixpoint trl_loop (kinds : list (nat * pkind)) (ms : list meas) (t r l : bool) : option bool :=
+Fixpoint trl_loop (kinds : list (nat * pkind)) (ms : list meas) (t r l : bool) : bool :=
   match ms with
-  | [] => Some true
+  | [] => true
   | m :: rest =>
     match classify kinds (ms_s m) with
-    | TRL_T => if t then Some false else trl_loop kinds rest true r l
-    | TRL_R => if r then Some false else trl_loop kinds rest t true l
-    | TRL_L => if l then Some false else trl_loop kinds rest t r true
-    | TRL_NONE => Some false
-    | TRL_FAULT => None
+    | TRL_T => if t then false else trl_loop kinds rest true r l
+    | TRL_R => if r then false else trl_loop kinds rest t true l
+    | TRL_L => if l then false else trl_loop kinds rest t r true
+    | TRL_NONE => false
     end
   end.
 
-Inductive path := PTrl | PSimple | PAuto | PFault.
+Inductive path := PTrl | PSimple | PAuto.
 
 Definition is_8_10 (ty : ctype) : bool := match ty with T8 | TE10 | U8 | UE10 => true | _ => false end.
 
-Definition solve_path (st : state) : path :=
+Definition is_trl (st : state) : bool :=
   let cf := st_cf st in
-  let trl :=
-    if negb ((cf_r cf =? 2) && (cf_c cf =? 2) && is_8_10 (cf_ty cf)) then Some false
-    else if negb (length (st_meas st) =? 3) then Some false
-    else if negb (st_unknown st =? 2) then Some false
-    else if negb (st_corr st =? 0) then Some false
-    else if st_merr st then Some false
-    else trl_loop (cf_kinds cf) (st_meas st) false false false in
-  match trl with
-  | None => PFault
-  | Some true => PTrl
-  | Some false => if st_unknown st =? 0 then PSimple else PAuto
-  end.
+  if negb ((cf_r cf =? 2) && (cf_c cf =? 2) && is_8_10 (cf_ty cf)) then false
+  else if negb (length (st_meas st) =? 3) then false
+  else if negb (st_unknown st =? 2) then false
+  else if negb (st_corr st =? 0) then false
+  else if st_merr st then false
+  else trl_loop (cf_kinds cf) (st_meas st) false false false.
+
+Definition solve_path (st : state) : path :=
+  if is_trl st then PTrl else if st_unknown st =? 0 then PSimple else PAuto.
 
 Definition x_length (st : state) : nat :=
   systems (cf_ty (st_cf st)) (cf_c (st_cf st)) * unknowns (cf_ty (st_cf st)) (cf_r (st_cf st)) (cf_c (st_cf st)).
@@ -451,7 +461,7 @@ Definition count_deficient (st : state) : bool :=
   | PSimple => existsb (fun k => sys_count st k <? unknowns (cf_ty cf) (cf_r cf) (cf_c cf))
                        (seq 0 (systems (cf_ty cf) (cf_c cf)))
   | PAuto => st_equations st + st_corr st <? x_length st + st_unknown st
-  | _ => false
+  | PTrl => false
   end.
 
 (* what the numeric code can depend on: configuration, error modelling, measured standards *)
@@ -474,26 +484,80 @@ Definition solve_frequency (o : oracle) (st : state) (f : nat) : bool :=
     forallb (fun k => if sys_count st k <? unk then false else o v f k) (seq 0 ns) && o v f ns
   | PAuto =>
     if st_equations st + st_corr st <? x_length st + st_unknown st then false else o v f ns
-  | PFault => false
+  end.
+
+(* the numeric verdict alone (every site the dispatched solver consults at frequency f) *)
+Definition numeric_ok (o : oracle) (st : state) (f : nat) : bool :=
+  let ns := systems (cf_ty (st_cf st)) (cf_c (st_cf st)) in
+  match solve_path st with
+  | PSimple => forallb (fun k => o (view_of st) f k) (seq 0 ns) && o (view_of st) f ns
+  | _ => o (view_of st) f ns
   end.
 
 Definition set_cal (st : state) (c : option (list meas)) : state :=
   {| st_cf := st_cf st; st_freqs := st_freqs st; st_fvalid := st_fvalid st; st_merr := st_merr st;
      st_seen := st_seen st; st_unknown := st_unknown st; st_corr := st_corr st;
      st_meas := st_meas st; st_sys := st_sys st; st_equations := st_equations st; st_max := st_max st;
-     st_cal := c |}.
+     st_cal := c; st_pv := st_pv st |}.
+Definition set_pv (st : state) (pv : pvals) : state :=
+  {| st_cf := st_cf st; st_freqs := st_freqs st; st_fvalid := st_fvalid st; st_merr := st_merr st;
+     st_seen := st_seen st; st_unknown := st_unknown st; st_corr := st_corr st;
+     st_meas := st_meas st; st_sys := st_sys st; st_equations := st_equations st; st_max := st_max st;
+     st_cal := st_cal st; st_pv := pv |}.
 
-(* _vnacal_new_solve_internal: the solve state (vs_init) and the new calibration structure are built
-   from scratch on every call and released on every exit; only on success is the new calibration
-   swapped in (the previous one freed).  Every failure after the frequency-vector test is VNAERR_MATH
-   (EDOM).  The loop does not run when there are no frequencies. *)
-Definition solve (o : oracle) (st : state) : state * outcome :=
+(* vn_unknown_parameter_list: the registered parameters of kind unknown / correlated in the order of
+   their registration (vnpr_unknown_index); st_seen is newest first *)
+Definition is_unk_kind (x : pkind) : bool := match x with PKnown => false | _ => true end.
+Definition unknown_list (st : state) : list nat :=
+  filter (fun k => is_unk_kind (kind_of (cf_kinds (st_cf st)) k)) (rev (st_seen st)).
+
+(* an injected allocation failure inside vnacal_new_solve:
+   FaultEarly       a request before the parameter write-back fails (vs_init, _vnacal_calibration_alloc, the
+                    TRL index block, the work areas of the numeric solvers);
+   FaultWriteback j the j-th (0-based) calloc of a frequency vector executed by the write-back loop fails *)
+Inductive afault := NoFault | FaultEarly | FaultWriteback (j : nat).
+
+(* "If we solved for unknown parameters, store them into the corresponding parameter structures":
+   for each entry of vn_unknown_parameter_list, in order:
+     free(vpmr_gamma_vector); vpmr_gamma_vector = NULL;
+     if (vpmr_frequencies != frequencies) { free(vpmr_frequency_vector); vpmr_frequencies = 0;
+                                            calloc -- on failure goto out --; vpmr_frequencies = frequencies; }
+     copy the frequencies; vpmr_gamma_vector = the solved vector.
+   nc = number of callocs executed so far; result = (parameter values, completed) *)
+Fixpoint writeback (F : nat) (tag : list meas) (fail_at : option nat) (nc : nat) (ps : list nat) (pv : pvals)
+  : pvals * bool :=
+  match ps with
+  | [] => (pv, true)
+  | k :: rest =>
+    let done := {| pv_freqs := F; pv_gamma := Some tag |} in
+    if pv_freqs (pv_get pv k) =? F then writeback F tag fail_at nc rest (pv_set pv k done)
+    else if (match fail_at with Some j => j =? nc | None => false end)
+         then (pv_set pv k pv_init, false)
+         else writeback F tag fail_at (S nc) rest (pv_set pv k done)
+  end.
+
+(* _vnacal_new_solve_internal, in the order of its effects:
+   1. no frequency vector: EINVAL (nothing was allocated);
+   2. the solve state (vs_init), the new calibration structure and the TRL index block are locals,
+      built from scratch on every call and released on every exit ("out:");
+   3. the frequency loop: every failure is VNAERR_MATH (EDOM) and leaves through "out:" - the
+      vnacal_new_t and the parameters have not been written yet; the loop does not run when there are
+      no frequencies;
+   4. the write-back of the solved unknown parameters into the vnacal_t (can fail in calloc: "out:"
+      with the parameters written so far changed and the calibration NOT replaced);
+   5. only then the previous vn_calibration is freed and the new one installed. *)
+Definition solve (o : oracle) (af : afault) (st : state) : state * outcome :=
   if negb (st_fvalid st) then (st, Err EINVAL)
-  else match solve_path st with
-       | PFault => (st, OutOfModel)
+  else match af with
+       | FaultEarly => (st, Err ENOMEM)
        | _ =>
          if forallb (solve_frequency o st) (seq 0 (st_freqs st))
-         then (set_cal st (Some (st_meas st)), Ok)
+         then
+           let '(pv, completed) :=
+               writeback (st_freqs st) (st_meas st) (match af with FaultWriteback j => Some j | _ => None end)
+                         0 (unknown_list st) (st_pv st) in
+           if completed then (set_cal (set_pv st pv) (Some (st_meas st)), Ok)
+           else (set_pv st pv, Err ENOMEM)
          else (st, Err EDOM)
        end.
 
@@ -504,13 +568,17 @@ Definition take_cal (st : state) : state * outcome :=
   | Some _ => (set_cal st None, Ok)
   end.
 
+(* vnacal_new_alloc + vnacal_new_set_frequency_vector: refused unless the dimensions fit the type *)
+Definition new_alloc (cf : config) (F : nat) : option state :=
+  if alloc_ok (cf_ty cf) (cf_r cf) (cf_c cf) then Some (init cf F true) else None.
+
 (* ------------------------------------------------------------------ histories *)
-Inductive op := OpAdd (a : add_args) | OpSolve | OpMerr (on : bool) | OpTakeCal.
+Inductive op := OpAdd (a : add_args) | OpSolve (af : afault) | OpMerr (on : bool) | OpTakeCal.
 
 Definition step (o : oracle) (st : state) (x : op) : state * outcome :=
   match x with
   | OpAdd a => add_std st a
-  | OpSolve => solve o st
+  | OpSolve af => solve o af st
   | OpMerr b => set_m_error st b
   | OpTakeCal => take_cal st
   end.
@@ -524,5 +592,5 @@ Fixpoint run (o : oracle) (st : state) (ops : list op) : state * list outcome :=
     (st2, out :: outs)
   end.
 
-Definition is_solve (x : op) : bool := match x with OpSolve => true | _ => false end.
+Definition is_solve (x : op) : bool := match x with OpSolve _ => true | _ => false end.
 Definition remove_solves (ops : list op) : list op := filter (fun x => negb (is_solve x)) ops.
